@@ -139,6 +139,29 @@ func runC07(seed int64, n int, dir string, tier string) *Report {
 			}
 		}
 	}
+	// containment cycles that nothing enters from the root or from a top-level component: every member is
+	// written once, and which of them ends up on top, with whom nested under whom, is the same in every run
+	{
+		d := sbom.NewDocument()
+		d.Metadata.Id = "urn:uuid:rings"
+		for _, id := range []string{"root", "ring-a", "ring-b", "tri-c", "tri-d", "tri-e", "plain"} {
+			d.NodeList.Nodes = append(d.NodeList.Nodes, &sbom.Node{Id: id, Name: id, Version: "1", Type: sbom.Node_PACKAGE})
+		}
+		d.NodeList.RootElements = []string{"root"}
+		d.NodeList.Edges = []*sbom.Edge{{Type: sbom.Edge_contains, From: "root", To: []string{"plain"}},
+			{Type: sbom.Edge_contains, From: "ring-a", To: []string{"ring-b"}}, {Type: sbom.Edge_contains, From: "ring-b", To: []string{"ring-a"}},
+			{Type: sbom.Edge_contains, From: "tri-c", To: []string{"tri-d"}}, {Type: sbom.Edge_contains, From: "tri-d", To: []string{"tri-e"}}, {Type: sbom.Edge_contains, From: "tri-e", To: []string{"tri-c"}}}
+		for _, f := range allWriterFormats {
+			first := serializeOnce(d, f)
+			rep.OracleEvals++
+			for k := 0; k < 24; k++ {
+				if again := serializeOnce(d, f); again.kind != first.kind || again.out != first.out {
+					rep.Fail(Failure{What: "serializing the same document again gave a different result", Detail: fmt.Sprintf("serialization %d differs from the first (containment cycles not reachable from the root)", k+2), Input: map[string]any{"format": string(f), "document": docJSON(d)}})
+					break
+				}
+			}
+		}
+	}
 	// one per-call options value (no format of its own) handed to writers of different formats in turn:
 	// each writes its own format, whatever the value was used for before
 	{
